@@ -6,6 +6,7 @@ import TvNetTcp.Props.C06
 #print axioms TV.C06.witness_F_C06_1
 #print axioms TV.C06.witness_F_C06_2
 #print axioms TV.C06.witness_F_C06_3
+#print axioms TV.C06.witness_F_C06_4
 #print axioms TV.C06.witness_F_C06_5
 #print axioms TV.C06.fixed_scenarios
 #print axioms TV.C06.C06_partial
